@@ -277,16 +277,23 @@ def skyline(tip_ages, branch_ages, origin, bounds, lam, mu, psi, rho, r=None, su
     return lp
 
 
-def acceptable(tip_ages, branch_ages, origin, bounds, lam, mu, psi, rho, r=None, survival=True,
-               method="taylor", ax=None):
-    """the set of values the density may take: one value when no event lies on a boundary
-    across which something changes, otherwise both one-sided limits per such boundary"""
+def material_coincidences(tip_ages, branch_ages, origin, bounds, lam, mu, psi, rho, r=None):
+    """boundaries that carry an event exactly AND across which a rate, the removal probability
+    or the sampling probability changes (on the others the side of the event is immaterial)"""
     co = []
     for j in coincidences(tip_ages, branch_ages, origin, bounds):
         same = (lam[j - 1] == lam[j] and mu[j - 1] == mu[j] and psi[j - 1] == psi[j]
                 and rho[j - 1] == 0.0 and (r is None or r[j - 1] == r[j]))
         if not same:
             co.append(j)
+    return co
+
+
+def acceptable(tip_ages, branch_ages, origin, bounds, lam, mu, psi, rho, r=None, survival=True,
+               method="taylor", ax=None):
+    """the set of values the density may take: one value when no event lies on a boundary
+    across which something changes, otherwise both one-sided limits per such boundary"""
+    co = material_coincidences(tip_ages, branch_ages, origin, bounds, lam, mu, psi, rho, r)
     if ax is None:
         ax = axis(origin, bounds, lam, mu, psi, rho, list(tip_ages) + list(branch_ages), method)
     vals = []
